@@ -81,6 +81,7 @@ pub fn run(a: &Args) {
     let mut files_out = vec![];
     let mut lines = 0usize;
     let mut cases = 0usize;
+    let tmp = crate::cmd_codec::TmpDir::new(&out, "damage");
     for ch in 0..chunks {
         let c = Conc::new(&mut r, true);
         let mut meta = c.meta();
@@ -120,7 +121,18 @@ pub fn run(a: &Args) {
                             // every other length through the typed entry points
                             let res = traverse_as(&c, LogSource::new(f.shp[..l].to_vec()),
                                                   if with_idx { Some(LogSource::new(f.shx.clone())) } else { None }, t, random, n, l % 2 == 0 || has_null);
-                            tr.emit(json!({"ev": "trunc", "which": "shp", "len": l, "withIdx": with_idx, "random": random, "res": res}));
+                            let mut ev = json!({"ev": "trunc", "which": "shp", "len": l, "withIdx": with_idx, "random": random, "res": res});
+                            // the same truncated bytes as a lone .shp file opened by path (every fourth length and around every
+                            // record boundary): a path is not a licence to trust the file size more than the header
+                            if !with_idx && !random && (l % 4 == 0 || near_end) {
+                                let generic = l % 2 == 0 || has_null;
+                                let p = crate::cmd_codec::path_variant(&tmp.0, "t", l);
+                                let _ = std::fs::remove_file(p.with_extension("shx"));
+                                let _ = std::fs::write(&p, &f.shp[..l]);
+                                ev["byPath"] = crate::cmd_codec::read_path_route(&c, &p, t, generic, false, n, false);
+                                let _ = std::fs::remove_file(&p);
+                            }
+                            tr.emit(ev);
                             cases += 1;
                         }
                     }
